@@ -3,3 +3,9 @@
 // Result/niche drop-glue explosion described in DESIGN section 1.1 rule 1b and times out).
 #![allow(warnings)]
 use super::*;
+
+#[cfg(test)]
+mod playback {
+    use super::*;
+    include!("/verif/.cache/playback/value_error.rs");
+}
